@@ -712,6 +712,10 @@ class SymVal(object):
         ia, ib = (self._as_int(ta) if ta[0] != 'ptr' else None), (self._as_int(tb) if tb[0] != 'ptr' else None)
         if ia and ib and ta[0] == 'int' and tb[0] == 'int':
             return ('lin', op, ladd(ia[2], ib[2], -1))
+        if ia and ib and ((ta[0] == 'int' and [k_ for k_ in ta[2] if k_] and tb[0] == 'key') or
+                          (tb[0] == 'int' and [k_ for k_ in tb[2] if k_] and ta[0] == 'key')):
+            # an index carried as a linear form compared with a named quantity (i < size)
+            return ('lin', op, ladd(ia[2], ib[2], -1))
         ra = 'n:%d' % ta[2].get('', 0) if ta[0] == 'int' and not [k for k in ta[2] if k] else render(ta)
         rb = 'n:%d' % tb[2].get('', 0) if tb[0] == 'int' and not [k for k in tb[2] if k] else render(tb)
         return canon(op, ra, rb)
